@@ -20,6 +20,9 @@ class Facts:
             self.consts.update(j["consts"])
             self.statics += j["statics"]
         self.inlined_helpers = {}
+        # promoted constants (`&ConnectionState::Connected`, `&[..]` temporaries): tiny bodies, resolved by the origin layer, not subjects of rules
+        self.promoted = {k: Fn(k, v, self) for k, v in raw.items() if "::promoted[" in k}
+        raw = {k: v for k, v in raw.items() if "::promoted[" not in k}
         if inline:
             raw, self.inlined_helpers = inline_helpers(raw)
         for k, v in raw.items():
@@ -32,19 +35,19 @@ class Facts:
 
 
 # ---- helper inlining ----------------------------------------------------------------------------------------------------------
-# A private function that no rule names (its name does not occur in any rule file) is a *helper*: it is inlined into its callers and is not
+# A private function that is not in tables/known_functions.txt (the functions of the pinned tree) is a *helper*: it is inlined into its callers and is not
 # a subject of its own. This makes every rule invariant under "extract a block into a private helper" refactorings: the caller's inlined body
 # has the same stores, guards and calls as before the extraction (parameters are bound to the argument operands, so origins resolve to the
 # caller's places). Functions named by a rule (anchors), public functions, closures and recursive functions are never inlined.
-_ANCHOR_TEXT = None
+_KNOWN = None
 
-def anchor_text():
-    global _ANCHOR_TEXT
-    if _ANCHOR_TEXT is None:
-        import glob
+def known_functions():
+    global _KNOWN
+    if _KNOWN is None:
         root = os.path.dirname(os.path.dirname(os.path.abspath(__file__)))
-        _ANCHOR_TEXT = "\n".join(open(p).read() for p in glob.glob(os.path.join(root, "rules", "*.py")) + [os.path.join(root, "sa", "obl.py"), os.path.join(root, "sa", "codec.py")])
-    return _ANCHOR_TEXT
+        with open(os.path.join(root, "tables", "known_functions.txt")) as f:
+            _KNOWN = {l.strip() for l in f if l.strip() and not l.startswith("#")}
+    return _KNOWN
 
 
 def _strip_generics(p):
@@ -56,9 +59,7 @@ def is_helper(path, j):
     import re
     if j.get("kind") not in ("Fn", "AssocFn") or "{closure" in path or "{impl" in path.rsplit("::", 1)[-1]: return False
     if str(j.get("vis", "")).startswith("Public"): return False
-    name = path.rsplit("::", 1)[-1]
-    if re.search(r"\b" + re.escape(name) + r"\b", anchor_text()): return False
-    return True
+    return path not in known_functions()
 
 
 def _shift(node, dl, db, keep_param_names=False):
@@ -101,7 +102,7 @@ def inline_helpers(raw, max_rounds=6):
     # pure accessors no rule names, plus the connection-status predicates (rules reason about the status enum itself, see rules/C12.py)
     STATUS = ("RenetClient::is_disconnected", "RenetClient::is_connected", "RenetClient::is_connecting", "RenetClient::disconnect_reason")
     accessors = {p for p, j in raw.items() if p not in helpers and is_pure_accessor(p, j, raw)
-                 and (p.endswith(STATUS) or not re.search(r"\b" + re.escape(p.rsplit("::", 1)[-1]) + r"\b", anchor_text()))}
+                 and (p.endswith(STATUS) or p not in known_functions())}
     helpers |= accessors
     # callers graph restricted to helpers, to refuse recursion
     def callees(j):
@@ -401,6 +402,12 @@ class Fn:
         if k == "const":
             if op.get("def"):
                 return ("fn", op["def"])
+            sname = op.get("s") or ""
+            if "::promoted[" in sname and depth < 40:
+                for pk, pf in self.facts.promoted.items():
+                    if pk.endswith("::" + sname) or pk == sname:
+                        try: return pf.origin_of_local(0, depth + 1)
+                        except Exception: break
             return ("const", op["val"], op.get("s"))
         if k in ("copy", "move"):
             return self.origin_of_place(op["place"], depth)
